@@ -61,7 +61,8 @@ def c19(tier):
                 "frames (Intact) and everything arrives without cancellation; with CancelSend TLC exhibits the duplicated "
                 "prefix (the open finding); implementation: real Unix sockets through zlink-tokio and zlink-smol "
                 "(bound and inherited-fd listeners, 1..8 connections, both directions at once, sizes 0 B..1 MiB, slow and "
-                "fast readers, abandoned sends); per connection/direction the program-ordered send and receive lists are "
+                "fast readers, abandoned sends; an end that closes with unread data behind it; a zlink Server serving a client that "
+                "delivers its calls in pieces while other clients call in between); per connection/direction the program-ordered send and receive lists are "
                 "validated by TLC; non-trivial = every scenario (distinct seeds/plans)")
     chk.assumptions = ["kernel scheduling and partial writes are sampled, not enumerated (the model enumerates them)",
                        "a reader stops when nothing arrives for 400 ms after its sender finished"]
@@ -72,6 +73,8 @@ def c19(tier):
     known = ("TransportTrace", "TransportTrace_known.cfg")
     run_family(chk, "transport", "prod", ["--seed", s, "--n", 200 if thorough else 30, "--mode", "plain"], [strict], "plain")
     run_family(chk, "transport", "prod", ["--seed", s + 1, "--n", 40 if thorough else 6, "--mode", "big"], [strict], "big")
+    run_family(chk, "transport", "prod", ["--seed", s + 3, "--n", 120 if thorough else 16, "--mode", "hangup"], [strict], "hangup")
+    run_family(chk, "transport", "prod", ["--seed", s + 4, "--n", 200 if thorough else 24, "--mode", "mux"], [strict], "mux")
     cfg = known if open_kf else strict
     run_family(chk, "transport", "prod", ["--seed", s + 2, "--n", 40 if thorough else 6, "--mode", "cancel"], [cfg], "cancel")
     if open_kf and not chk.violations:
